@@ -286,6 +286,28 @@ def audit_policy_peers_e2e(cov, fail, only=None):
         if code == 3 or fl or code not in (0, 2) or not probed:
             bad += 1
             fail('policy_peer_fails_full_audit', pname, fl[0].strip() if fl else 'exit %s' % code, {'exit': code, 'fail_lines': fl[:4], 'connections': len(srv.log)}, 'no failure-level finding (exit 0 or 2)')
+    # … and the same peers when one host-key probe connection is dropped just when its reply is due (a reset by the network, MaxStartups):
+    # a key that could not be read is not a failure of the configuration (seed C17-11: "0-bit modulus")
+    seen = set()
+    for pname, p in BUILTIN_POLICIES.items():
+        if not p['server_policy'] or (only is not None and pname != only):
+            continue
+        keyset = tuple((p['host_keys'] or []) + (p['optional_host_keys'] or []))
+        if keyset in seen and only is None:
+            continue
+        seen.add(keyset)
+        for victim in keyset:
+            srv = policy_server(p)
+            srv.hostkeys = dict(srv.hostkeys)
+            srv.hostkeys[victim] = ('close',)
+            code, out = fn.run_main(['-n', '--skip-rate-test', '10.17.0.1'], fn.FakeNet({'10.17.0.1': srv}))
+            n += 1
+            cov.add(('audit-e2e-dropped-probe', pname, victim), True, tags=['policy-peer-audit-dropped-probe'])
+            fl = [l for l in out.split('\n') if '[fail]' in l]
+            if code == 3 or fl or code not in (0, 2):
+                bad += 1
+                fail('policy_peer_fails_full_audit', pname, fl[0].strip() if fl else 'exit %s' % code,
+                     {'exit': code, 'fail_lines': fl[:4], 'probe_connection_dropped_for': victim}, 'no failure-level finding (exit 0 or 2)')
     fn.reset_dbs()
     return n, bad
 
